@@ -228,6 +228,17 @@ impl Completion for Custom {
     }
 }
 
+/// keys of the two properties the `GRename` exit installs (`with_props`, then `map_props` appends the second)
+pub const RKEYS: [&str; 8] = ["p", "q", "span_name", "evt_kind", "lvl", "err", "trace_id", "span_id"];
+const RV1: [&str; 8] = ["7", "8", "stale", "metric", "debug", "user-err", "0123456789abcdef0123456789abcdef", "0123456789abcdef"];
+const RV2: [&str; 8] = ["70", "80", "renamed", "Metric", "warn", "stale", "fedcba9876543210fedcba9876543210", "fedcba9876543210"];
+
+/// (key 1, value 1, key 2, value 2, rename before re-propertying)
+pub fn rename_variant(v: u32) -> (&'static str, &'static str, &'static str, &'static str, bool) {
+    let (a, b) = (v as usize % 8, (v as usize / 8) % 8);
+    (RKEYS[a], RV1[a], RKEYS[b], RV2[b], (v / 64) % 2 == 0)
+}
+
 macro_rules! guard_body {
     ($st:expr, $strc:expr, $exit:expr, $g:ident) => {{
         $st.phase.set(PH_BODY);
@@ -253,11 +264,20 @@ macro_rules! guard_body {
                 Ret::Completed(r)
             }
             Exit::GRename => {
-                let g2 = $g
-                    .with_name("renamed")
-                    .with_mdl(emit::path!("renamed::mdl"))
-                    .with_props(("p", 7))
-                    .map_props(|p| p.and_props(("q", 8)));
+                // which two properties (plain, or colliding with a well-known key) and whether the rename comes
+                // before or after the re-propertying is part of the case
+                let (k1, v1, k2, v2, name_first) = rename_variant($st.variant.get());
+                let g2 = if name_first {
+                    $g.with_name("renamed")
+                        .with_mdl(emit::path!("renamed::mdl"))
+                        .with_props((k1, v1))
+                        .map_props(|p| p.and_props((k2, v2)))
+                } else {
+                    $g.with_props((k1, v1))
+                        .map_props(|p| p.and_props((k2, v2)))
+                        .with_mdl(emit::path!("renamed::mdl"))
+                        .with_name("renamed")
+                };
                 $st.phase.set(PH_END);
                 drop(g2);
                 $st.phase.set(PH_AFTER);
@@ -363,6 +383,12 @@ fn s18(rt: &Rt, wf: &SpecFilter, st: &St, strc: &Rc<St>, exit: Exit) -> Ret {
     guard_body!(st, strc, exit, g)
 }
 
+/// a guard site whose MACRO properties (they travel in the span's frame) are called like the span's own keys
+#[emit::span(rt: rt, guard: g, "s19 {x}", span_name: "stale", evt_kind: "metric")]
+fn s19(rt: &Rt, st: &St, strc: &Rc<St>, exit: Exit, x: i32) -> Ret {
+    guard_body!(st, strc, exit, g)
+}
+
 // ---- site table ------------------------------------------------------------------------------------
 
 #[derive(Clone, Copy, PartialEq, Eq, Debug)]
@@ -389,6 +415,8 @@ pub struct Site {
     pub err_mapped: bool,
     /// the site passes `when: <the case's second filter>`
     pub has_when: bool,
+    /// literal properties given to the macro after the template (carried by the span's frame)
+    pub extra: &'static [(&'static str, &'static str)],
 }
 
 const HERE: &str = module_path!();
@@ -408,12 +436,13 @@ const fn site(name: &'static str, tpl: &'static str, is_async: bool, shape: Shap
         result_completion: false,
         err_mapped: false,
         has_when: false,
+        extra: &[],
     }
 }
 
 use emit::Level::{Debug as D, Error as E, Info as I, Warn as W};
 
-pub const SITES: [Site; 19] = [
+pub const SITES: [Site; 20] = [
     site("span/sync-fn", "s0 {x}", false, Shape::Unit, true),
     site("span/async-fn", "s1 {x}", true, Shape::Unit, true),
     Site { panic_lvl: Some(W), ..site("span/sync-fn/panic_lvl", "s2", false, Shape::Unit, false) },
@@ -439,6 +468,7 @@ pub const SITES: [Site; 19] = [
     Site { default_lvl: Some(I), err_lvl: Some(W), result_completion: true, has_when: true, ..site("info_span/async-fn/when+err_lvl", "s16", true, Shape::Result, false) },
     Site { has_when: true, ..site("span/sync-fn/when", "s17 {x}", false, Shape::Unit, true) },
     Site { panic_lvl: Some(I), has_when: true, ..site("span/sync-fn/when+guard+panic_lvl", "s18", false, Shape::Guard, false) },
+    Site { extra: &[("span_name", "stale"), ("evt_kind", "metric")], ..site("span/sync-fn/guard+props-named-span_name-evt_kind", "s19 {x}", false, Shape::Guard, true) },
 ];
 
 pub fn exits_of(site: &Site) -> Vec<Exit> {
@@ -475,6 +505,9 @@ pub struct CaseB {
     pub rng_seed: u32,
     pub clock: Vec<Option<u32>>,
     pub x: i32,
+    /// guard sites, `GRename` exit: which properties are installed and in which order (see `rename_variant`)
+    #[serde(default)]
+    pub rename: u8,
 }
 
 /// Poll a future to completion on this thread. Ok(Some(v)) = finished, Ok(None) = dropped at its first
@@ -522,6 +555,7 @@ pub fn check_form(c: &CaseB, cx: &mut Cx) -> Res {
     let cancel = exit == Exit::CancelAtYield;
     let x = c.x;
     st.phase.set(PH_BEGIN);
+    st.variant.set(c.rename as u32);
     let s: &St = &st;
     let out: Result<Option<Ret>, ()> = match site_ix {
         0 => sync_call(|| s0(&rt, s, exit, x)).map(|o| o.map(|_| Ret::Unit)),
@@ -542,7 +576,8 @@ pub fn check_form(c: &CaseB, cx: &mut Cx) -> Res {
         15 => sync_call(|| s15(&rt, &wf, s, exit, x)).map(|o| o.map(|r| ret_of(r.map_err(|e| e.to_string())))),
         16 => drive(s, s16(&rt, &wf, s, exit, x), cancel).map(|o| o.map(|r| ret_of(r.map_err(|e| e.to_string())))),
         17 => sync_call(|| s17(&rt, &wf, s, exit, x)).map(|o| o.map(|_| Ret::Unit)),
-        _ => sync_call(|| s18(&rt, &wf, s, &st, exit)),
+        18 => sync_call(|| s18(&rt, &wf, s, &st, exit)),
+        _ => sync_call(|| s19(&rt, s, &st, exit, x)),
     };
     st.phase.set(PH_AFTER + 1);
 
@@ -554,6 +589,8 @@ pub fn check_form(c: &CaseB, cx: &mut Cx) -> Res {
         has_extent: false,
         has_err: false,
         tpl: "{span_name} started".to_string(),
+        is_span: true,
+        name: Some(site.tpl.to_string()),
     };
     let (deciding, deciding_spec) = if site.has_when { (F_WHEN, &c.when) } else { (F_RUNTIME, &c.filter) };
     let enabled = deciding_spec.verdict(&start_feat, 0);
@@ -710,14 +747,65 @@ pub fn check_form(c: &CaseB, cx: &mut Cx) -> Res {
         });
     }
     vassert_eq!(cx, r.recorder, if on_custom { CUSTOM_ID } else { 0 }, "wrong-completion", "site {} exit {:?}: recorder", site.name, exit);
-    vassert!(cx, r.kind_is_span, "span-kind-missing", "site {}: event lacks evt_kind=span: {:?}", site.name, r.props);
+    vassert!(cx, r.kind_is_span && r.prop("evt_kind") == Some("span"), "span-kind-missing", "site {}: event lacks evt_kind=span: {:?}", site.name, r.props);
     let (want_name, want_mdl) = if exit == Exit::GRename { ("renamed", "renamed::mdl") } else { (site.tpl, site.mdl) };
     vassert_eq!(cx, r.prop("span_name"), Some(want_name), "span-name-mismatch", "site {} exit {:?}", site.name, exit);
+    // the same by keyed lookup (generic, erased, through And chains, the kind filters)
+    if let Err((view, got)) = r.all_views_give("span_name", Some(want_name)) {
+        cx.fail("span-name-mismatch/keyed-lookup", format!("site {} exit {:?}: keyed lookup of span_name ({view}) gives {got:?}, the span's name is {want_name:?}; the event enumerates {:?}", site.name, exit, r.props))?;
+    }
+    if let Err((view, got)) = r.all_views_give("evt_kind", Some("span")) {
+        cx.fail("span-kind-mismatch/keyed-lookup", format!("site {} exit {:?}: keyed lookup of evt_kind ({view}) gives {got:?}; the event enumerates {:?}", site.name, exit, r.props))?;
+    }
+    vassert_eq!(cx, r.name_pulled.as_deref(), Some(want_name), "span-name-mismatch/keyed-lookup", "site {} exit {:?}: pull::<Str>(span_name); the event enumerates {:?}", site.name, exit, r.props);
+    vassert!(
+        cx,
+        r.span_filter_matches && !r.metric_filter_matches,
+        "span-kind-mismatch/keyed-lookup",
+        "site {} exit {:?}: is_span_filter matches={} is_metric_filter matches={}; the event enumerates {:?}",
+        site.name,
+        exit,
+        r.span_filter_matches,
+        r.metric_filter_matches,
+        r.props
+    );
+    // the guard's own properties (only the rename exit installs any): all of them, in order, right after the
+    // span's own name and kind, whatever they are called
+    let user: Vec<(String, String)> = if exit == Exit::GRename {
+        let (k1, v1, k2, v2, name_first) = rename_variant(c.rename as u32);
+        let reserved = |k: &str| k != "p" && k != "q";
+        cx.class_if(reserved(k1) || reserved(k2), "B:rename-with-colliding-props");
+        cx.class_if(k1 == "span_name" || k2 == "span_name" || k1 == "evt_kind" || k2 == "evt_kind", "B:rename-with-props-named-span_name-or-evt_kind");
+        cx.class_if(!name_first, "B:with_name-after-with_props");
+        vec![(k1.to_string(), v1.to_string()), (k2.to_string(), v2.to_string())]
+    } else {
+        Vec::new()
+    };
+    let user_has = |key: &str| user.iter().any(|(k, _)| k == key);
+    let first_user = |key: &str| user.iter().find(|(k, _)| k == key).map(|(_, v)| v.as_str());
+    let rest = r.user_props_given(&user);
+    vassert!(
+        cx,
+        rest.len() >= user.len() && rest[..user.len()] == user[..],
+        "span-props-mismatch",
+        "site {} exit {:?}: the span's own properties {:?} are not carried in order: {:?}",
+        site.name,
+        exit,
+        user,
+        r.props
+    );
+    for (k, _) in &user {
+        // plain keys, and lvl / err where no completion assigns one (the rename exit is a plain drop on a site
+        // without a level): the first property of that name answers the keyed lookup
+        if k == "span_name" || k == "evt_kind" || is_id_key(k) {
+            continue;
+        }
+        if let Err((view, got)) = r.all_views_give_any(k, first_user(k)) {
+            cx.fail("span-props-mismatch/keyed-lookup", format!("site {} exit {:?}: keyed lookup of {k} ({view}) gives {got:?}, the span's first property of that name is {:?}; the event enumerates {:?}", site.name, exit, first_user(k), r.props))?;
+        }
+    }
     vassert_eq!(cx, r.mdl.as_str(), want_mdl, "span-mdl-mismatch", "site {} exit {:?}", site.name, exit);
     vassert_eq!(cx, r.phase, PH_END, "completed-early", "site {} exit {:?}: phase in which the completion ran (0 begin, 1 body, 2 end, 3 after)", site.name, exit);
-    if exit == Exit::GRename {
-        vassert!(cx, r.prop("p") == Some("7") && r.prop("q") == Some("8"), "span-props-mismatch", "site {}: renamed span lacks p/q: {:?}", site.name, r.props);
-    }
 
     // extent: the reading taken by start() (before the body) .. the reading taken at completion
     let start = st.readings(PH_BEGIN);
@@ -749,9 +837,11 @@ pub fn check_form(c: &CaseB, cx: &mut Cx) -> Res {
         vassert_eq!(cx, r.lvl, want, "ok-level-mismatch", "site {}: level of a span whose body returned Ok", site.name);
         vassert!(cx, r.prop("err").is_none(), "unexpected-err", "site {}: Ok span carries err: {:?}", site.name, r.props);
     } else {
-        vassert_eq!(cx, r.lvl, site.default_lvl, "level-mismatch", "site {} exit {:?}: level of a normally completed span", site.name, exit);
+        // a property of the span called lvl / err shows through where nothing else assigns one
+        let user_lvl = first_user("lvl").and_then(|s| s.parse::<emit::Level>().ok());
+        vassert_eq!(cx, r.lvl, site.default_lvl.or(user_lvl), "level-mismatch", "site {} exit {:?}: level of a normally completed span", site.name, exit);
         if err_tag.is_none() {
-            vassert!(cx, r.prop("err").is_none(), "unexpected-err", "site {}: span carries err: {:?}", site.name, r.props);
+            vassert_eq!(cx, r.prop("err"), first_user("err"), "unexpected-err", "site {}: err of a normally completed span (only a span property called err may be there): {:?}", site.name, r.props);
         } else {
             // Err returned through a span without ok_lvl/err_lvl/err: whether err is attached is not stated
             cx.dont_care();
@@ -772,8 +862,25 @@ pub fn check_form(c: &CaseB, cx: &mut Cx) -> Res {
     }
     let hex_t = t.map(|t| format!("{:032x}", t));
     let hex_s = s_id.map(|s| format!("{:016x}", s));
-    vassert_eq!(cx, r.prop("trace_id").map(|s| s.to_string()), hex_t, "ids-missing-on-event", "site {} exit {:?}: trace_id on the span event vs the id the span was created with", site.name, exit);
-    vassert_eq!(cx, r.prop("span_id").map(|s| s.to_string()), hex_s, "ids-missing-on-event", "site {} exit {:?}: span_id on the span event vs the id the span was created with", site.name, exit);
+    for (key, hex) in [("trace_id", &hex_t), ("span_id", &hex_s)] {
+        if user_has(key) {
+            // a span property named like an id key: the frame's id must still be carried; which of the two a
+            // first-match / keyed lookup answers is not stated
+            cx.dont_care();
+            let carried = r.props.iter().any(|(k, v)| k == key && Some(v) == hex.as_ref());
+            vassert!(cx, carried || hex.is_none(), "ids-missing-on-event", "site {} exit {:?}: {key} {:?} the span was created with is not on the span event: {:?}", site.name, exit, hex, r.props);
+        } else {
+            vassert_eq!(cx, r.prop(key).map(|s| s.to_string()), *hex, "ids-missing-on-event", "site {} exit {:?}: {key} on the span event vs the id the span was created with", site.name, exit);
+            if let Err((view, got)) = r.all_views_give_any(key, hex.as_deref()) {
+                cx.fail("ids-missing-on-event/keyed-lookup", format!("site {} exit {:?}: keyed lookup of {key} ({view}) gives {got:?}, the span was created with {:?}", site.name, exit, hex))?;
+            }
+        }
+    }
+    // literal macro properties travel in the frame: carried after the span's own name and kind
+    for (k, v) in site.extra {
+        vassert!(cx, rest.iter().any(|(rk, rv)| rk == k && rv == v), "span-props-mismatch", "site {} exit {:?}: macro property {k}={v} is not on the span event: {:?}", site.name, exit, r.props);
+        cx.class("B:macro-props-named-span_name-evt_kind");
+    }
     if site.has_x {
         vassert_eq!(cx, r.prop("x").map(|s| s.to_string()), Some(x.to_string()), "span-props-mismatch", "site {} exit {:?}: captured property x", site.name, exit);
     }
